@@ -256,7 +256,8 @@ def inlined_fn(crate, path, depth=2):
                     hits[0] += 1
                     body = rewrite(copy.deepcopy(g["body"]), stack + [d], lvl + 1)
                     let = {"k": "Let", "pat": {"k": "Tuple", "pats": copy.deepcopy(g["params"])}, "init": {"k": "Tup", "es": args, "sp": out.get("sp")}, "sp": out.get("sp")}
-                    return {"k": "Block", "stmts": [let], "expr": body, "ty": out.get("ty"), "sp": out.get("sp"), "inlined_from": d}
+                    return {"k": "Block", "stmts": [let], "expr": body, "ty": out.get("ty"), "sp": out.get("sp"), "inlined_from": d,
+                            "inlined_result": "result::Result<" in (g.get("output") or "")}
         return out
 
     body = rewrite(copy.deepcopy(f["body"]), [path], 0)
